@@ -1,6 +1,8 @@
 package world
 
 import (
+	"strings"
+
 	"verif/sim/internal/eng"
 	"verif/sim/internal/sched"
 	"verif/sim/internal/tape"
@@ -77,6 +79,11 @@ func SleepFn(reqs [][]*Req, cur []int, started []int64, res *eng.Result) func(ta
 
 // NoteClock copies the virtual-clock figures of a scheduler run into res.
 func NoteClock(sr *sched.Result, res *eng.Result) {
+	if sr.TimersArmed > 0 {
+		res.Probes["virtual_timers_armed_by_the_code_under_test"] += sr.TimersArmed
+		res.Probes["virtual_timers_stopped_before_due"] += sr.TimersStopped
+		res.Faults["virtual-timer-fired"] += sr.TimersFired
+	}
 	if sr.Sleeps > 0 {
 		res.Probes["open_workload_runs"]++
 		res.Probes["think_time_sleeps"] += sr.Sleeps
@@ -193,11 +200,14 @@ func TraceLines(setup *Setup, reqs [][]*Req, sr *sched.Result) []string {
 		}
 	}
 	if sr != nil {
-		sl := ""
+		var sl strings.Builder
 		for _, s := range sr.Log {
-			sl += itoa(int(s.Task)) + ":" + SiteName(int(s.Site)) + " "
+			sl.WriteString(itoa(int(s.Task)))
+			sl.WriteByte(':')
+			sl.WriteString(SiteName(int(s.Site)))
+			sl.WriteByte(' ')
 		}
-		out = append(out, "SCHEDULE "+sl)
+		out = append(out, "SCHEDULE "+sl.String())
 	}
 	return out
 }
